@@ -93,6 +93,19 @@ pub fn build_gadget(
             });
             returned.insert("bits".into(), json!(r));
         }
+        "mul_point" => {
+            // concrete subgroup point and scalar (shape extraction)
+            let s = inp(c, "s");
+            let gen = dusk_jubjub::GENERATOR_EXTENDED * dusk_jubjub::JubJubScalar::from(7u64);
+            let aff = dusk_jubjub::JubJubAffine::from(gen);
+            let x = c.append_witness(aff.get_u());
+            let y = c.append_witness(aff.get_v());
+            inputs.insert("px".into(), json!(x.index()));
+            inputs.insert("py".into(), json!(y.index()));
+            let p = TorsionFreeWitnessPoint::new_unchecked(Composer::verif_witness_point(x, y));
+            let r = c.component_mul_point(s, p);
+            returned.insert("out".into(), json!([r.x().index(), r.y().index()]));
+        }
         _ => panic!("unknown gadget {g}"),
     }
     (inputs, returned)
